@@ -135,12 +135,14 @@ class CoreGen(progs.ProgGen):
         """an early exit that the core covers at this place, or ''"""
         r = self.rng
         c = self.exit_ctx
+        # incl. exits taken when the structure's own stack has just been emptied (`_X`: what the exit pops then
+        # comes from the input scope that is current at that moment)
         if c == "for":
-            return r.choice(["X", "x", "n2=[X]", "n3=[x]", "n2>[X]", ":[X]", "n1=[x]"])
+            return r.choice(["X", "x", "n2=[X]", "n3=[x]", "n2>[X]", ":[X]", "n1=[x]", "_X", "_x", "^_X"])
         if c == "while":
-            return r.choice(["X", ":3=[X]", ":[|X]", "!4>[X]"])
+            return r.choice(["X", ":3=[X]", ":[|X]", "!4>[X]", "_X", "__X"])
         if c == "lam":
-            return r.choice(["X", ":[X]", ":2<[X]", "n[X]", ":[|X]"])
+            return r.choice(["X", ":[X]", ":2<[X]", "n[X]", ":[|X]", "_X", "__X", "_:[X]", "n_[_X]", "$_X"])
         return ""
 
     def recursive_lambda(self, pure):
@@ -440,6 +442,7 @@ SEEDS = [
     "1 2 3 λ3|X;†W", "λX;†", "3(λnX;†,)", "3 λ:2<[X]‹x;†", "6 λ:2<[X]:‹x$2-x+;†", "3 λ:[‹:ßx];†", "1 2 x", "x", "1 2 X 3", "1[X]2",
     "4(n λ:2>[:3>[X|d]|N];†,)", "3(2(n2=[X]n,)n,)", "3(n2=[x]2(n,))", "5 ƛλ:[:‹x+];†;", "4 λ:[:‹x,];†", "3 5 λ2|:[$‹$x|_];†",
     "3 {:|:2=[X]:,‹}", "5(n[n2=[X]|0])W", "3(n1=[x|n,]7,)", "2 λ3(n2=[x]n)X9;†W", "3 λ:[‹x]n;†", "4 λ:[‹x:,]X;†", "3 λ1 ~λ2|X;;†W",
+    "3 λ_X;†", "3 λ_X;†W", "⟨1|2|3⟩ λ:2<[_X]d;M", "1 2 λ2|__X;†W", "4 λ_ _X;†", "2(_X)W", "5 λ_ λ_X;† ;†W", "@f:1|_X;4@f;W",
     "10 λ2|n;†", "1 2 λ2|n W;†", "3 4 @f:2|n;@f;", "@f:2|!;1@f;", "@f:0|n;@f;", "λ0|!;†", "3 λ0|?;†", "⟨?|?⟩", "5 ƛ⟨n|n⟩;",
 ]
 
